@@ -44,6 +44,9 @@ type sinkRef struct {
 
 var refs = map[string]*sinkRef{}
 
+// brokenRefs: sinks whose rendering of the reference string is already wrong.
+var brokenRefs = map[string]string{}
+
 func render(sk fx.Sink, s string) (out []byte, err error) {
 	defer func() {
 		if x := recover(); x != nil {
@@ -82,7 +85,9 @@ func init() {
 			}
 		}
 		if slots == 0 {
-			panic(fmt.Sprintf("fixture %s: reference string not found in %q", sk.Name, out))
+			// The fixtures are known to carry the reference string on the unchanged tree, so this
+			// is templ's doing: reported as a violation of that sink, not as harness trouble.
+			brokenRefs[sk.Name] = fmt.Sprintf("the benign reference string %q does not arrive as one text run / attribute value: output %q", Mark, out)
 		}
 		refs[sk.Name] = &sinkRef{sink: sk, t0: t0}
 	}
@@ -99,6 +104,9 @@ func decide(c Case) error {
 	ref, ok := refs[c.Sink]
 	if !ok {
 		return fmt.Errorf("unknown sink %s", c.Sink)
+	}
+	if msg, bad := brokenRefs[c.Sink]; bad {
+		return fmt.Errorf("%s", msg)
 	}
 	s := string(c.S)
 	sk := ref.sink
